@@ -6,7 +6,7 @@ obligations raised while evaluating them (index bounds, summary preconditions) a
   [e(x) for x in L if c(x)]   ->  mask M[k] = c(L[k]);  result = (e(L[k]))_k selected by M   (rank/idx selection theory)
   {key(x): val(x) for x in L} ->  insertion-ordered map; obligation: keys pairwise distinct
   sorted(L, key=f)            ->  a permutation of L with non-decreasing keys (stable)
-  np.array_split(L, n)[c]     ->  L[cstart:cend] with numpy's section arithmetic (first len % n sections one longer)
+  np.array_split(L, n)[c]     ->  L[start_c : start_c + size_c], size_c = len // n + [c < len % n], start_0 = 0, start_{c+1} = start_c + size_c
 """
 import ast
 import builtins
@@ -212,9 +212,22 @@ def _array_split(i, args, kw, node, fr):
     raise Unsupported("np.array_split of %r" % (xs,), node)
 
 
+sec_lo = z3.Function("array_split_start", Int, Int, Int, Int)  # (length, number of sections, section index) -> first position
+
+
 def split_bounds(Ln, n, c):
+    """section c of np.array_split(length Ln, n): [lo, hi) with lo = start(Ln,n,c) and hi = lo + size_c, size_c = Ln div n + [c < Ln mod n].
+    The start is kept as a function symbol (its closed form c*(Ln div n) + min(c, Ln mod n) is non-linear); split_facts gives what is used:
+    start(.,.,0) = 0, start(.,.,c+1) = start(.,.,c) + size_c, and 0 <= start, start + size_c <= Ln for 0 <= c < n."""
     q, r = Ln / n, Ln % n
-    return c * q + z3.If(c < r, c, r), (c + 1) * q + z3.If(c < r, c + 1, r)
+    lo = sec_lo(Ln, n, c)
+    return lo, lo + q + z3.If(c < r, 1, 0)
+
+
+def split_facts(Ln, n, c):
+    lo, hi = split_bounds(Ln, n, c)
+    return [sec_lo(Ln, n, 0) == 0, sec_lo(Ln, n, c + 1) == hi,
+            z3.Implies(z3.And(n >= 1, c >= 0, c < n, Ln >= 0), z3.And(lo >= 0, hi <= Ln, hi >= lo))]
 
 
 @hook("getitem")
@@ -226,6 +239,8 @@ def _split_item(i, v, ix, node):
         c = z3.If(c < 0, c + n, c)
         Ln = v.sl.seq.length
         lo, hi = split_bounds(Ln, n, c)
+        for f_ in split_facts(Ln, n, c):
+            i.ctx.assume(f_)
         s = seq_slice(i, v.sl.seq, lo, hi)
         r = SymList(s, v.sl.elem_wrap)
         r.section_of = (v.sl.seq, lo, hi)
